@@ -174,7 +174,11 @@ fn lane_c07(shard: u64, nshards: u64, seed: u64, cases: u64) -> u64 {
         let mut rng = Rng::derive(seed, 7, 9_000_000 + i);
         let (scale, offset) = pairs[(i % 8) as usize];
         let word: u8 = if i % 3 == 0 { 16 } else { 8 };
-        let raws: Vec<u16> = if word == 8 { (0..=255).collect() } else { (0..128u16).map(|k| k.wrapping_mul(517).wrapping_add(i as u16)).chain([0, 1, 2, 255, 256, 65_535]).collect() };
+        let mut raws: Vec<u16> = if word == 8 { (0..=255).collect() } else { (0..128u16).map(|k| k.wrapping_mul(517).wrapping_add(i as u16)).chain([0, 1, 2, 255, 256, 65_535]).collect() };
+        if i % 8 >= 6 {
+            // moments of very few gates (0..=5)
+            raws.truncate(((i / 8) % 6) as usize);
+        }
         let mut d = enc::Distinct::new(&mut rng);
         let hdr = enc::gen_data_header(&mut rng, &mut d);
         let mut m = enc::gen_moment(&mut rng, &mut d, *b"REF", raws.len() as u16, word);
@@ -283,7 +287,7 @@ fn lane_rest(shard: u64, nshards: u64, seed: u64, cases: u64) -> u64 {
                         let e = edges[(i as usize / 6 + k) % edges.len()];
                         c.angle = e; c.edge1 = e.rotate_left(1); c.ebc = e.rotate_left(2);
                         c.az_rate = e.rotate_left(3);
-                        c.waveform = (i as usize / 6 + k) as u8;
+                        c.waveform = ((i as usize / 6 + k) as u8).wrapping_sub(1); // 0 (undocumented), 1..=5, beyond
                         c.channel = (k as u8).wrapping_mul(37);
                     }
                     let body = v.encode();
@@ -364,8 +368,9 @@ fn lane_rest(shard: u64, nshards: u64, seed: u64, cases: u64) -> u64 {
                     let mut stream = Vec::new();
                     let k = 1 + (i / 6 % 4) as usize;
                     for j in 0..k {
-                        if (i / 6 + j as u64) % 3 == 0 {
-                            let code = [2u8, 5, 15, 18, 0, 34, 255, 3][(i as usize / 6 + j) % 8];
+                        if (i / 6 + j as u64) % 3 != 1 {
+                            // (neighbouring frames share a type code half of the time: runs of status / VCP messages)
+                            let code = [2u8, 5, 15, 18, 0, 34, 255, 3][(i as usize / 6 + j / 2) % 8];
                             let mut h = enc::MsgHeader::realistic(&mut rng, code);
                             h.date = [1u16, 2, 65_535, 19_000][(i as usize + j) % 4];
                             h.time = [0u32, 1, 86_399_999, 43_200_000][(i as usize / 2 + j) % 4];
